@@ -178,6 +178,32 @@ def main():
         runs.append(gen.floatable(c))
         meta.append(("tol", c, {"name": name, "tol": tol}))
 
+    # (3b) atol and rtol play their documented roles: linear problems with the solution scaled far from 1 and atol != rtol
+    #      (small |u|: the bound is dominated by atol although rtol is loose; large |u|: dominated by rtol|u| although atol is loose)
+    for _ in range(6 if quick else 40):
+        name = rng.choice(["linear(-1)", "linear(1/2)", "rotation", "oscillator2", "damped2"])
+        p0 = P[name]
+        small = rng.random() < 0.5
+        e = rng.choice([2, 3]) if small else -rng.choice([3, 4])
+        scale = Fr(1, 10 ** e) if e > 0 else Fr(10 ** (-e))
+        p = dict(p0)
+        p["u0"] = [[x * scale for x in row] for row in p0["u0"]]
+        q = rng.randint(max(2, p["ord"]), 4)
+        kind = rng.choice(kinds)
+        t0 = Fr(0)
+        c = base_case(p, q, kind, rng.choice(["filter", "fixedpoint"]), rng.choice(["none", "mle", "dyn"]), rng.choice(["ts0", "ts1"]), t0)
+        # requested bound ~ 1e-6 |scale|-free: small u: atol tiny, rtol loose; large u: atol loose, rtol tiny
+        if small:
+            atol, rtol = float(scale) * 1e-6, 1e-3
+        else:
+            atol, rtol = 1e-2, 1e-9 if e <= -4 else 1e-8
+        t1 = t0 + Fr(rng.choice([1, 2, 3]), 1)
+        c["routine"] = "adaptive"
+        c["adaptive"] = {"mode": "save_at", "save_at": [t0, t0 + (t1 - t0) * Fr(rng.randint(1, 31), 32), t1], "atol": atol, "rtol": rtol,
+                         "dt0": 0.1, "clip": rng.random() < 0.5, "control": rng.choice([None, "pi"])}
+        runs.append(gen.floatable(c))
+        meta.append(("tol", c, {"name": name, "tol": rtol if small else atol, "scale": float(scale)}))
+
     # (4) tiny remainder after the last natural step (clip_dt): first find the natural step ends
     pre, premeta = [], []
     for _ in range(3 if quick else 20):
@@ -233,7 +259,7 @@ def main():
             a = c["adaptive"]
             ratio_here = 0.0
             for ti, t in enumerate(r["t"]):
-                sol = p["sol"](t, r["t"][0])
+                sol = [info.get("scale", 1.0) * w for w in p["sol"](t, r["t"][0])]
                 got = u_of(r, c, ti)
                 for g, w in zip(got, sol):
                     ratio_here = max(ratio_here, abs(g - w) / (a["atol"] + a["rtol"] * abs(w)))
@@ -245,7 +271,7 @@ def main():
                               f"(clip_dt=True): error is {ratio_here:.3g} x (atol + rtol|u|) at tol {tol:g}", {"case": jc, "ratio": ratio_here})
                 else:
                     ck.report(f"C01.tolerance.{c['kind']}.{c['strat']}.{c['calib']}.{c['lin']}",
-                              f"{c['kind']}/{c['strat']}/{c['calib']}/{c['lin']} q={c['q']} {info['name']} tol={tol:g}: error is {ratio_here:.3g} x (atol + rtol|u|) "
+                              f"{c['kind']}/{c['strat']}/{c['calib']}/{c['lin']} q={c['q']} {info['name']} atol={a['atol']:g} rtol={a['rtol']:g} |u|~{info.get('scale', 1.0):g}: error is {ratio_here:.3g} x (atol + rtol|u|) "
                               f"(> {K_TOL})", {"case": jc, "ratio": ratio_here})
     for k2, d in pend_order.items():
         if 1 in d and 2 in d:
@@ -264,7 +290,8 @@ def main():
                   {"broken": pr.get("failed_at", "Props/C01.v"), "errors": pr["errors"]}, nofail=True)
     ck.finish(rule="(1) polynomial solutions of degree <= q on random fixed grids: exact to 1e-9; (2) grid halving on closed-form IVPs: observed order >= q; "
               f"(3) adaptive solves on a closed-form family (linear, rotation, logistic, u'=tu, two second-order oscillators), tol 1e-2..1e-9, random checkpoints, "
-              f"dt0, clip on/off, I/PI control, 3 factorisations x none/MLE/dynamic x filter/fixed-point x TS0/TS1, q<=6: error <= {K_TOL} (atol+rtol|u|); "
+              f"dt0, clip on/off, I/PI control, 3 factorisations x none/MLE/dynamic x filter/fixed-point x TS0/TS1, q<=6: error <= {K_TOL} (atol+rtol|u|), "
+              "incl. linear problems scaled to |u| ~ 1e-3..1e4 with atol != rtol by 5-7 orders (each tolerance must play its own role); "
               "(4) final time leaving a 3e-8 remainder after a natural step with clip_dt; non-trivial: all; distinct by full input")
 
 
